@@ -478,6 +478,96 @@ def probe_value(job):
         return [{"tid": label, "part": "immutable", "cls": "?", "ev": [{"op": "driver-error", "exc": repr(ex)}]}]
 
 
+def mutable_twin(value, holders, deep=True):
+    """The value as a caller could hand it to a constructor in mutable containers: bytearray
+    for bytes, list for tuple, dict for dns.immutable.Dict (recursively).  `holders`
+    collects the containers so that they can be changed after the construction."""
+    if isinstance(value, bytes):
+        b = bytearray(value)
+        holders.append(b)
+        return b
+    if isinstance(value, tuple) and not hasattr(value, "_fields"):
+        lst = [mutable_twin(v, holders) if deep else v for v in value]
+        holders.append(lst)
+        return lst
+    if isinstance(value, dns.immutable.Dict):
+        d = {k: mutable_twin(v, holders) if deep else v for k, v in value.items()}
+        holders.append(d)
+        return d
+    return value
+
+
+def deep_kinds(obj, out, depth=0):
+    """kinds of every field of obj, through nested attribute-bearing objects"""
+    for attr in all_slots(obj):
+        if not hasattr(obj, attr):
+            continue
+        v = getattr(obj, attr)
+        kinds(v, out)
+        if depth < 4:
+            for sub, _ in nested(v, attr):
+                if not isinstance(sub, dns.immutable.Dict):
+                    deep_kinds(sub, out, depth + 1)
+
+
+def observe(rd, ref):
+    try:
+        return [rd.to_wire(), hash(rd), rd == ref, ref == rd]
+    except Exception as ex:  # noqa: BLE001
+        return ["raised", type(ex).__name__]
+
+
+def probe_ctor(job):
+    """For one rdata instance: for every constructor parameter whose value is (or holds) an
+    immutable container, build a new record through the PUBLIC constructor with that
+    argument in mutable containers; record the kinds of all stored fields, then change the
+    containers that were passed and record whether to_wire / hash / == moved.
+    -> one trace per (class, parameter)."""
+    import inspect
+
+    label, obj = job
+    traces = []
+    try:
+        params = list(inspect.signature(obj.__init__).parameters)
+    except Exception as ex:  # noqa: BLE001
+        return [{"tid": label + "#ctor", "root": label, "part": "immutable", "cls": label,
+                 "ev": [{"op": "driver-error", "exc": repr(ex)}]}]
+    if not all(hasattr(obj, k) for k in params):
+        return []
+    cls = type(obj).__module__ + "." + type(obj).__qualname__
+    for k in params:
+        holders = []
+        twin = mutable_twin(getattr(obj, k), holders)
+        if not holders:
+            continue
+        ev = {"op": "ctor", "attr": k, "built": "err", "kinds": ["absent"], "same": True,
+              "passed": sorted({type(h).__name__ for h in holders})}
+        new = None
+        for deep in (True, False):  # if nested mutable containers are refused, only the outer one
+            if not deep:
+                holders = []
+                twin = mutable_twin(getattr(obj, k), holders, deep=False)
+            try:
+                new = type(obj)(*[twin if p == k else getattr(obj, p) for p in params])
+                ev["passed"] = sorted({type(h).__name__ for h in holders})
+                break
+            except Exception:  # noqa: BLE001 - a constructor may refuse mutable containers
+                new = None
+        if new is not None:
+            ks = set()
+            deep_kinds(new, ks)
+            before = observe(new, obj)
+            for h in holders:
+                if isinstance(h, bytearray):
+                    h[:] = bytes(x ^ 0xFF for x in h) + b"\x07"
+                else:
+                    h.clear()
+            after = observe(new, obj)
+            ev.update(built="ok", kinds=sorted(ks) or ["absent"], same=bool(before == after and before[0] != "raised"))
+        traces.append({"tid": "%s#ctor:%s" % (label, k), "root": label, "part": "immutable", "cls": cls, "ev": [ev]})
+    return traces
+
+
 # one sample text per rdata type (class IN unless noted); the check fails as MACHINERY if a
 # loaded rdata class has no sample here, so a new type cannot silently escape the probe
 SAMPLES = {
